@@ -188,7 +188,10 @@ def real_session_problems(scenario, sim, timeout_s=90.0):
     """The same scenario on real threads and real loopback sockets (vf/sim/realrun.py): it must complete, satisfy the log
     and transcript oracles, and write the byte-identical file / the same four transcripts as the simulated run."""
     from vf.sim.realrun import run_real_session
-    rr = run_real_session(scenario, timeout_s)
+    try:
+        rr = run_real_session(scenario, timeout_s)
+    except Inconclusive:
+        return None
     if rr.timed_out:
         # wall-clock safety net: says nothing about the property (a loaded machine, a port taken by somebody else) -
         # the case is skipped and counted, never reported
